@@ -1,6 +1,11 @@
 //! vkit — property-based testing and fuzzing machinery for rust-media-libs (properties C01..C20).
 #[macro_use]
 pub mod core;
+pub mod alloc;
+pub mod isolate;
+
+#[global_allocator]
+static GLOBAL: alloc::Counting = alloc::Counting;
 pub mod gen;
 pub mod props;
 pub mod refs;
